@@ -224,6 +224,11 @@ def _sequential(ctx, r, idx, rig):
 		if x < 0.5:
 			s = r.choice(rig.senders)
 			d = r.choice((-3, -2, -1, 0, 0, 1, 1, 2, 3, 4, 5, 26, H - 1, H - 30)) if r.random() < 0.9 else r.randint(-50, 200)
+			if r.random() < 0.04:
+				# far from the clock, but clearly on one side of it: up to a third of the hyperframe ahead (must simply
+				# wait) or behind (stale); the half-hyperframe border itself is left alone
+				d = r.choice((H // 3 + 7, H // 2 - 1000, H // 4, H - H // 3 - 7, H // 2 + 1000))
+				ctx.count("far_arrivals")
 			ver = b.models[s].ver if r.random() < 0.9 else 1 - b.models[s].ver
 			k, m = rig.new_burst(s, clock + d, ver)
 			rig.bursts[k] = {"fn": m["fn"], "sender": s}
